@@ -53,7 +53,7 @@ def run(ctx):
         sat = sats[k % len(sats)]
         chan = 3 + (k // len(sats)) % 3
         n = rng.choice([56, 60, 120, 300, 47, 48, 49, 50])      # + 4: incl. 51 / 52 / 53 lines, either side of the smoothing-window switch
-        if (ctx.thorough or getattr(ctx, "escalated", False)) and k < 3:
+        if (ctx.thorough or getattr(ctx, "escalated", False)) and k < (3 if ctx.thorough else 2):
             n = [4000, 4096, 8000][k] + rng.randint(1, 17) - 4       # long passes, just beyond a multiple of 4000 / 4096
         kelvin = rng.uniform(285.5, 304.5)
         base = prt_count_for(tab, sat, kelvin)
